@@ -1,6 +1,6 @@
 """C18 - results do not depend on whether the output object aliases an input (R-ALIAS)."""
 import os
-from .. import alias
+from .. import alias, asmcheck
 from .. import buildmodel as bm
 from ..facts import loc_str, strip_tmpl
 
@@ -34,8 +34,8 @@ def is_interface(f):
         return False
     if f.get('linkage') == 'internal' and not f.get('method'):
         return False          # file-local helper: checked at its call sites
-    if '/arch/' in file:
-        return False          # back-end specialisations are reached through the generic interface
+    if '/arch/' in file and not f.get('method'):
+        return False          # trampolines called from assembly; the specialised members themselves are interfaces
     return True
 
 
@@ -50,7 +50,8 @@ def run(ctx):
         ctx.add_extra_unit(drv)
     progs = ctx.programs()
     for cfg, prog in progs.items():
-        an = alias.Analyzer(prog)
+        tbl = asmcheck.build_tables(cfg, os.path.join(ctx.outdir, 'asm'))
+        an = alias.Analyzer(prog, asm_summary=asmcheck.make_alias_summary(tbl))
         nent = npat = 0
         for f in entry_functions(prog):
             pats = [frozenset()]
